@@ -19,7 +19,7 @@ Does not decide: equality of violations/fixes under the emitted configuration.
 import ast
 
 from ..flow import Facts, callee_text
-from ..model import AnalysisError, norm, walk_function
+from ..model import AnalysisError, expand_text, norm, walk_function
 from ..report import Result
 from ..ruletable import UNKNOWN, Instance, strip
 from ..selftest import Variant
@@ -283,7 +283,7 @@ def _encoding(r, p):
     for key in ("vsg.rule:configure_global_rule_attributes", "vsg.rule:configure_attribute", "vsg.rule:configure_rule_attributes"):
         fi = p.function(key)
         sevr = [n for n in walk_function(fi.node) if isinstance(n, ast.Assign) and norm(n.targets[0]) == "self.severity"]
-        if len(sevr) == 1 and "severity_list.get_severity_named(" in norm(sevr[0].value):
+        if len(sevr) == 1 and "severity_list.get_severity_named(" in expand_text(fi, sevr[0].value):
             f = Facts(fi.node)
             c = dict(f.conds_at(sevr[0]))
             if any(v and "== 'severity'" in k for k, v in c.items()):
@@ -293,7 +293,7 @@ def _encoding(r, p):
         else:
             r.fail("C17.encoding", key + ":severity", "reader does not resolve severity names through severity_list.get_severity_named", fi.loc())
         wr = [n for n in walk_function(fi.node) if isinstance(n, ast.Assign) and isinstance(n.targets[0], ast.Subscript) and norm(n.targets[0].value) == "self.__dict__"]
-        if len(wr) == 1 and norm(wr[0].targets[0].slice) in norm(wr[0].value) and "dConfig['rule']" in norm(wr[0].value):
+        if len(wr) == 1 and norm(wr[0].targets[0].slice) in expand_text(fi, wr[0].value) and "dConfig['rule']" in expand_text(fi, wr[0].value):
             r.ok("C17.encoding", key + ":write-back", "self.__dict__[name] = oConfig.dConfig['rule'][...][name]")
         else:
             r.fail("C17.encoding", key + ":write-back", "reader does not write the configured value back under the same name", fi.loc())
